@@ -42,6 +42,31 @@ func (p *Prog) VerifyLemmas(prop string) *FuncResult {
 			}()
 			st := &State{reach: "true", cells: map[*ssa.Alloc]*Val{}, globals: map[*ssa.Global]*Val{}, heap: map[string]string{}, ghost: map[string]*Val{}, epoch: "0"}
 			env := &Env{x: x, vars: map[string]*Val{}, st: st, pkg: p.typesPkg(l.PkgPath), fnPkg: l.PkgPath}
+			if l.Induct != "" {
+				// induction on a natural number: `forall n int :: n >= 0 ==> P(n)` is split into P(0) and
+				// P(k) ==> P(k+1) for a fresh k >= 0; the conclusion follows by the induction principle
+				q, ok := l.E.(*EQuant)
+				if !ok || !q.Forall || len(q.Vars) != 1 || q.Vars[0][0] != l.Induct {
+					fail("induction lemma must have the form `forall %s int :: %s >= 0 ==> P`", l.Induct, l.Induct)
+				}
+				imp, ok := q.Body.(*EBin)
+				if !ok || imp.Op != "==>" || ExprString(imp.X) != "("+l.Induct+">=0)" {
+					fail("induction lemma must have the form `forall %s int :: %s >= 0 ==> P`", l.Induct, l.Induct)
+				}
+				t := p.resolveType(q.Vars[0][1], env.pkg)
+				zero := x.mkVal(x.c.ILit(0), t)
+				g0 := x.evalBool(imp.Y, env.with(l.Induct, zero))
+				res.Obligs = append(res.Obligs, &Oblig{Name: shortKey(l.PkgPath) + "#lemma:" + name + ".base", Base: "lemma:" + name + ".base", Kind: "lemma", Func: l.PkgPath,
+					Hyp: "true", Goal: g0, C: x.c, Props: l.Props})
+				k := x.c.FreshConst("ind.k", x.c.I())
+				kv := x.mkVal(k, t)
+				k1 := x.mkVal(x.c.IAdd(k, x.c.ILit(1)), t)
+				hyp := And(x.c.ICmp("<=", x.c.ILit(0), k), x.evalBool(imp.Y, env.with(l.Induct, kv)))
+				g1 := x.evalBool(imp.Y, env.with(l.Induct, k1))
+				res.Obligs = append(res.Obligs, &Oblig{Name: shortKey(l.PkgPath) + "#lemma:" + name + ".step", Base: "lemma:" + name + ".step", Kind: "lemma", Func: l.PkgPath,
+					Hyp: hyp, Goal: g1, C: x.c, Props: l.Props})
+				return
+			}
 			g := x.evalBool(l.E, env)
 			res.Obligs = append(res.Obligs, &Oblig{Name: shortKey(l.PkgPath) + "#lemma:" + name, Base: "lemma:" + name, Kind: "lemma", Func: l.PkgPath,
 				Hyp: "true", Goal: g, C: x.c, Props: l.Props})
